@@ -91,6 +91,12 @@ void hazard_eras<Traits>::guard_ptr<T, MarkedPtr>::acquire(const concurrent_ptr<
     // we have to use acquire here to ensure that the subsequent era_clock.load
     // sees a value >= p.construction_era
     auto value = p.load(order);
+    if (value.get() == nullptr) {
+      // nothing to protect - do not occupy a hazard era
+      reset();
+      this->ptr = value;
+      return;
+    }
 
     auto era = era_clock.load(std::memory_order_relaxed);
     if (era == prev_era) {
